@@ -65,7 +65,9 @@ Proof.
     destruct (negb (is_none pv)); [|right; reflexivity].
     cbn [guard bind enc_dop].
     destruct (valid_phys CIdent (f_pt x) pv); [|right; reflexivity].
-    cbn [guard bind p2i enc_dct std_apply_mask std_used_mask].
+    cbn [guard bind p2i].
+    destruct (valid_int CIdent (dct_bt (Std (f_bt x) (f_en x) (f_hl x) (f_bl x) None)) pv); [|right; reflexivity].
+    cbn [guard bind enc_dct std_apply_mask std_used_mask].
     destruct (emplace_atomic_outcome (set_bit s 0) pv (f_bl x) (f_bt x) (f_en x) (f_hl x) eq_refl F1 F2) as [(s' & E & Hb)|E];
       rewrite E; [left; eexists; split; reflexivity | right; reflexivity].
 Qed.
@@ -181,7 +183,9 @@ Proof.
     assert (Epv : pv = vget (f_name x) kv).
     { unfold pv in *. destruct (is_none (vget (f_name x) kv)); [discriminate N | reflexivity]. }
     destruct (valid_phys CIdent (f_pt x) pv); [|discriminate].
-    cbn [guard bind p2i enc_dct std_apply_mask std_used_mask] in H.
+    cbn [guard bind p2i] in H.
+    destruct (valid_int CIdent (dct_bt (Std (f_bt x) (f_en x) (f_hl x) (f_bl x) None)) pv); [|discriminate].
+    cbn [guard bind enc_dct std_apply_mask std_used_mask] in H.
     destruct (emplace_atomic (set_bit s 0) pv (f_bl x) (f_bt x) (f_en x) (f_hl x) None) as [s1|e] eqn:E; [|discriminate].
     unfold emplace_atomic in E.
     destruct (raw_of pv (f_bl x) (f_bt x) (f_en x) (f_hl x)) as [raw|e] eqn:R; [|discriminate]. cbn [bind] in E.
